@@ -3,13 +3,17 @@ FIX_COMMITS = ["8d2201b", "df04100", "1af35a7", "d4f6549", "fcb976d", "69fd084"]
 ENGINES = [
  {"name": "E-lib", "path": "/verif/harness", "serves_properties": ["C12","C17","C22","C23","C24","C25","C26","C27"],
   "kind_free_text": "Rust (toolchain 1.88) binary capyv-lib linking /repo's crates: bounded exhaustive enumerators + proptest 1.11 (TestRunner, fixed ChaCha seed from VERIF_SEED, no persistence), reference models / laws as oracles"},
- {"name": "E-prog", "path": "/verif/pyv", "serves_properties": [],
+ {"name": "E-prog", "path": "/verif/pyv", "serves_properties": ["C01"],
   "kind_free_text": "Python (python3-vt) + Hypothesis 6.168: generated Capy programs compiled by the real CLI (built from /repo/crates/capy/src/main.rs) and executed; reference interpreter / metamorphic twins as oracles"},
 ]
 NOTES = "All checks: ./check <id> --tier quick|thorough; VERIF_SEED is the only entropy; exit 2 = infrastructure trouble. Known findings: /verif/known_findings.json."
 NOT_YET = {}
 ELIB_NOTE = "trusts rustc, proptest, the small reference model in the harness source; explores the stated bounded domain exhaustively and beyond it by seeded random generation; absence of violations is established only on what was explored"
+EPROG_NOTE = "trusts the reference interpreter / oracle model in /verif/pyv (written from README.md, core docs and the repo's tests, never from the compiler), Hypothesis, gcc as linker; the real CLI built from /repo/crates/capy/src/main.rs is what is exercised; absence of violations only on what was explored"
 CHECKS = {
+ "C01": {"engine": "E-prog", "technique": "Hypothesis-generated whole programs (type-directed, by construction) compiled by the real CLI and executed; oracle: independent reference interpreter (stdout + exit status)",
+         "level": "960 (quick) / 40000 (thorough) generated programs over 7 feature profiles; each must be accepted, link, and print exactly what the definitional interpreter computes and exit with main's result mod 256; failures are shrunk by Hypothesis to minimal programs",
+         "note": EPROG_NOTE},
  "C12": {"engine": "E-lib", "technique": "exhaustive pair enumeration + proptest over hir::common::Ty against algebraic laws L1-L5",
          "level": "all ordered pairs of the ~900 types of constructor depth <= 1 (exhaustive, ~8e5 pairs) and 200k/5M random pairs at depth 2 are checked against the five laws of the statement (reflexivity of can_fit_into, fit => cast, weak-replaceable => fit, max accepts both operands, max symmetric); panics inside the relation functions are violations",
          "note": ELIB_NOTE + "; uids are derived from the declaration so that one uid names one type; Unknown/NotYetResolved/AlwaysJumps/File are outside the universe"},
